@@ -116,9 +116,65 @@ vi_op(int argc, char **argv)
     }
 }
 
-#ifdef HAVE_CRC_OPS
-static void crc_op(int argc, char **argv);
-#endif
+/* ---- CRC-16/ARC ------------------------------------------------------ */
+
+#include <ufw/crc/crc16-arc.h>
+#define HAVE_CRC_OPS
+
+static void
+crc_op(int argc, char **argv)
+{
+    const char *op = argv[0];
+    char out[2048];
+    if (strcmp(op, "crc.buf") == 0 && argc == 3) {
+        size_t n; unsigned char *buf = parse_hex(argv[2], &n);
+        if (!buf) { printf("bad-op"); return; }
+        snprintf(out, sizeof out, "%04x", ufw_crc16_arc((uint16_t)strtoul(argv[1], NULL, 16), buf, n));
+        free(buf);
+    } else if (strcmp(op, "crc.split") == 0 && argc == 4) {
+        size_t n; unsigned char *buf = parse_hex(argv[2], &n);
+        if (!buf) { printf("bad-op"); return; }
+        size_t k = parse_u64(argv[3]); if (k > n) k = n;
+        uint16_t init = (uint16_t)strtoul(argv[1], NULL, 16);
+        /* second part in its own exact-size block */
+        unsigned char *b2 = malloc(n - k ? n - k : 1);
+        memcpy(b2, buf + k, n - k);
+        uint16_t whole = ufw_crc16_arc(init, buf, n);
+        uint16_t split = ufw_crc16_arc(ufw_crc16_arc(init, buf, k), b2, n - k);
+        snprintf(out, sizeof out, "whole=%04x split=%04x", whole, split);
+        free(b2); free(buf);
+    } else if (strcmp(op, "crc.u16") == 0 && argc == 3) {
+        size_t n; unsigned char *buf = parse_hex(argv[2], &n);
+        if (!buf) { printf("bad-op"); return; }
+        uint16_t *w = malloc((n / 2) * 2 ? (n / 2) * 2 : 2);
+        memcpy(w, buf, (n / 2) * 2);
+        snprintf(out, sizeof out, "%04x", ufw_crc16_arc_u16((uint16_t)strtoul(argv[1], NULL, 16), w, n / 2));
+        free(w); free(buf);
+    } else if (strcmp(op, "crc.initial") == 0 && argc == 2) {
+        size_t n; unsigned char *buf = parse_hex(argv[1], &n);
+        if (!buf) { printf("bad-op"); return; }
+        snprintf(out, sizeof out, "%04x", ufw_buffer_crc16_arc(buf, n));
+        free(buf);
+    } else if (strcmp(op, "crc.table") == 0) {
+        for (unsigned i = 0; i < 256; i++) {
+            unsigned char d = (unsigned char)i;
+            snprintf(out + 4 * i, 5, "%04x", ufw_crc16_arc(0, &d, 1));
+        }
+    } else if (strcmp(op, "crc.sweep") == 0 && argc == 3) {
+        unsigned long lo = parse_u64(argv[1]), hi = parse_u64(argv[2]);
+        unsigned long long acc = 0;
+        for (unsigned long s = lo; s < hi; s++)
+            for (unsigned d = 0; d < 256; d++) {
+                unsigned char o = (unsigned char)d;
+                acc = (unsigned long long)(((unsigned __int128)acc * 31 + ufw_crc16_arc((uint16_t)s, &o, 1) + 1) % 18446744073709551557ull);
+            }
+        snprintf(out, sizeof out, "%llu", acc);
+    } else {
+        printf("bad-op");
+        return;
+    }
+    printf("%s ## %s", out, out);
+}
 #ifdef HAVE_BF_OPS
 static void bf_op(int argc, char **argv);
 #endif
